@@ -232,6 +232,8 @@ type iter struct {
 
 	valid bool
 	err   error
+
+	released bool
 }
 
 // NewIterator creates a lexicographically ordered iterator over the database
@@ -346,7 +348,15 @@ func (it *iter) Value() []byte {
 	return slices.Clone(it.iter.Value())
 }
 
-func (it *iter) Release() { it.iter.Close() }
+// Release closes the underlying iterator. It is idempotent: pebble recycles closed
+// iterators through a pool, so closing one twice would hand the same iterator to two users.
+func (it *iter) Release() {
+	if it.released {
+		return
+	}
+	it.released = true
+	it.iter.Close()
+}
 
 // updateError casts pebble-specific errors to errors that Avalanche VMs expect
 // to see (they do not know which type of db may be provided).
